@@ -87,10 +87,10 @@ type c06Round struct {
 
 func c06Plan(i int64, tier string, seed uint64) c06Round {
 	r := prng.New(seed, 0xC06, uint64(i))
-	cfgs := []string{"A", "B", "E", "F"}
+	cfgs := []string{"A", "B", "E", "F", "G"}
 	gs := []int{8}
 	if tier == "thorough" {
-		cfgs = []string{"A", "B", "C", "D", "E", "F"}
+		cfgs = []string{"A", "B", "C", "D", "E", "F", "G"}
 		gs = []int{2, 4, 8, 16, 32}
 	}
 	rd := c06Round{cfg: cfgs[i%int64(len(cfgs))], G: gs[(i/int64(len(cfgs)))%int64(len(gs))], delay: int(i/3) % 3}
@@ -118,7 +118,7 @@ func init() {
 	fw.Register(&fw.Prop{
 		ID: "C06", Title: "Concurrent evaluations are isolated and race-free", Race: true, Workers: 4, GoMaxProcs: 8,
 		Rule: "each case is one round: G goroutines (quick: 8; thorough: 2,4,8,16,32) each evaluate 6 programs (context-defaulting built-ins under paths, nested contexts, partials, chains, lambdas, higher-order functions, sorts, groupings, transforms, regexes, and generated deterministic programs) some hundred times on goroutine-specific inputs whose correct results differ. " +
-			"Configurations: A one shared Expr per program; B one Expr per goroutine; C Compile inside the loop; D all goroutines share one input document and one registered variable; E package-level RegisterVars/RegisterExts with unique values concurrent with Compile, the compiled Expr then evaluated for $name; F function values (typed and untyped lambdas, partials, a composition, a regex, a transform) returned by one evaluation and registered under a different name in each goroutine's expressions, all goroutines calling the same function objects (outcomes compared including error texts, which carry the calling name). " +
+			"Configurations: A one shared Expr per program; B one Expr per goroutine; C Compile inside the loop; D all goroutines share one input document and one registered variable; E package-level RegisterVars/RegisterExts with unique values concurrent with Compile, the compiled Expr then evaluated for $name; F function values (typed and untyped lambdas, partials, a composition, a regex, a transform) returned by one evaluation and registered under a different name in each goroutine's expressions, all goroutines calling the same function objects (outcomes compared including error texts, which carry the calling name); G as A with a registered variable, but the shared Exprs are freshly compiled so that their very first evaluations run concurrently. " +
 			"Delay injection at the verif yield points (after the call context is set, on entry to a Go callable): none / 5% / 50% Gosched or 1..40 us spin. Monitors: (1) Go race detector reports with a repository frame; (2) every goroutine's outcome equals the outcome of the same (program, input) evaluated alone before the goroutines start; " +
 			"(3) the recorded Register/Compile history is checked for linearizability per name with porcupine (register model), plus the snapshot invariant that two names registered in one call are always seen together. non-trivial = every round; distinct by round parameters",
 		Assumptions: []string{"Expr-level Register* is not run concurrently with Eval of the same Expr (not promised by the property)", "a porcupine timeout (60 s) is inconclusive, not a violation"},
@@ -174,7 +174,7 @@ func c06Run(i int64, tier string, seed uint64, r *fw.Rec) {
 			}
 			continue // a generated program that does not compile is skipped
 		}
-		if rd.cfg == "D" {
+		if rd.cfg == "D" || rd.cfg == "G" {
 			e.RegisterVars(map[string]interface{}{"reg": reg})
 		}
 		exprs[k] = e
@@ -187,6 +187,20 @@ func c06Run(i int64, tier string, seed uint64, r *fw.Rec) {
 				continue
 			}
 			base[g][k] = digest(obs.Eval(e, inputs[g]), false, false)
+		}
+	}
+	if rd.cfg == "G" {
+		// the shared expressions meet their very first evaluations concurrently:
+		// the baseline above used them, so compile (and register on) fresh ones
+		for k, p := range rd.progs {
+			if exprs[k] == nil {
+				continue
+			}
+			e, _ := obs.Compile(p)
+			if e != nil {
+				e.RegisterVars(map[string]interface{}{"reg": reg})
+			}
+			exprs[k] = e
 		}
 	}
 	var wg sync.WaitGroup
